@@ -12,6 +12,7 @@ Decided
       templates of the cluster's spikes
   A3  grouped_mean = per-present-id sum / count; _unique = ids with a non-zero count among the non-negative entries (increasing);
       _flatten_per_cluster = sorted distinct union
+  +   on EVERY return path of the model queries the selection goes through the right assignment vector (a dictionary keyed by template ids looked up with a cluster id is a conflict)
 Not decided: exact partition at value level, behaviour for negative ids beyond _unique's documented filtering.
 """
 import ast
@@ -194,11 +195,26 @@ def run(ctx):
         m = repo.lookup_method(cls, mname)
         if m is None:
             raise AnchorMissing('TemplateModel.%s' % mname)
-        S = Shape(repo, selfattrs=model_attrs(), inline_depth=2)
-        res = S.result(m, {'self': UNK, m.params[1]: Ix(kind)})
+        S = Shape(repo, selfattrs=model_attrs(), inline_depth=3)
+        rets = S.results(m, {'self': UNK, m.params[1]: Ix(kind)})
+        reps = list(S.reports)
+        if any({'spike_clusters', 'spike_templates'} <= {n_.attr for n_ in ast.walk(i_.test) if isinstance(n_, ast.Attribute)} for f_ in repo.transparent_closure(m) for i_ in f_.nodes(ast.If)):
+            S.reports = [r_ for r_ in S.reports if r_.kind != 'space']
         nrep += flush(ctx, S, mname)
-        ok = isinstance(res, Arr) and isinstance(res.elem, Ix) and res.elem.space is Spike
-        ctx.check(ok and not S.reports, 'C07.A2', m, mname, '%s selects spike indices by the %s vector' % (mname, tab), '%s does not select spikes through self.%s (%s)' % (mname, tab, [x.msg for x in S.reports][:1] or res))
+        # every return path: spike indices, restricted by membership of the RIGHT assignment vector (no path through the other vector, e.g. a shortcut
+        # "clusters are the templates" taken under a condition that does not imply it)
+        bad_ret = [(n_, v_) for n_, v_ in rets if not (isinstance(v_, Arr) and isinstance(v_.elem, Ix) and v_.elem.space is Spike) and not is_unk(v_) and not (isinstance(v_, Arr) and is_unk(v_.elem))]
+        und_ret = [(n_, v_) for n_, v_ in rets if is_unk(v_) or (isinstance(v_, Arr) and is_unk(v_.elem))]
+        # a shortcut taken under a test that the two assignment vectors coincide legitimately mixes the two id kinds: not judged
+        eq_guard = any({'spike_clusters', 'spike_templates'} <= {n_.attr for n_ in ast.walk(i_.test) if isinstance(n_, ast.Attribute)} for f_ in repo.transparent_closure(m) for i_ in f_.nodes(ast.If))
+        if (reps or bad_ret) and eq_guard:
+            ctx.undecided('C07.A2', m, '%s mixes cluster and template ids under a test comparing the two assignment vectors: not judged' % mname)
+        elif reps or bad_ret:
+            ctx.violated('C07.A2', m, (bad_ret[0][0] if bad_ret else mname), '%s does not select spikes through self.%s on every path (%s)' % (mname, tab, [x.msg for x in reps][:1] or bad_ret[0][1]))
+        elif und_ret or not rets:
+            ctx.undecided('C07.A2', m, '%s: a return could not be typed' % mname)
+        else:
+            ctx.holds('C07.A2', m, '%s selects spike indices by the %s vector on every return path (%d)' % (mname, tab, len(rets)), mname)
     tc = repo.lookup_method(cls, 'get_template_counts')
     S = Shape(repo, selfattrs=model_attrs(), inline_depth=3)
     res = S.result(tc, {'self': UNK, tc.params[1]: Ix(Clu)})
